@@ -200,6 +200,13 @@ func (s *Sess) Do(o Op) string {
 		if err != nil {
 			return "err"
 		}
+		// An id may legitimately be issued again after a restart once its message is gone (the
+		// counter restarts with the process); the old handle then no longer names anything.
+		for j, old := range s.Tab[o.Mb] {
+			if old == id {
+				s.Tab[o.Mb][j] = "reissued:" + id
+			}
+		}
 		s.Tab[o.Mb] = append(s.Tab[o.Mb], id)
 		return "k" + strconv.Itoa(len(s.Tab[o.Mb])-1)
 	case "s":
